@@ -17,7 +17,7 @@ MIN_FRACTIONS = {"nontrivial": 0.3, "multi-layer": 0.15, "dir:up": 0.1, "dir:dow
 
 
 def budget(tier):
-    return dict(examples=250, shards=4) if tier == "quick" else dict(examples=3000, shards=16)
+    return dict(examples=250, shards=4) if tier == "quick" else dict(examples=1500, shards=16)
 
 
 def strategy(tier):
